@@ -2051,6 +2051,13 @@ func (h *fsmHandler) established(ctx context.Context) (bgp.FSMState, *fsmStateRe
 	// reset the write deadline that was set in the connection establishment.
 	fsm.conn.SetWriteDeadline(time.Time{})
 
+	// RFC 4271 6.8: a collision with a connection in the Established state
+	// closes the new connection. Nobody looks at the outgoing connections in
+	// this state, so stop connecting and drop what is in flight.
+	if fsm.outgoingConnMgr != nil {
+		fsm.outgoingConnMgr.stop()
+	}
+
 	ioCtx, cancel := context.WithCancel(ctx)
 	wg := &sync.WaitGroup{}
 	wg.Add(2)
